@@ -114,6 +114,29 @@ func mutate(r *run, f *simrt.SimFile, other *simrt.SimFile) []byte {
 	}
 	data := bytes.Join(segs, nil)
 	data = append([]byte(nil), data...)
+	if t.Prob(1, 4) {
+		// field-level damage: one field of one record emptied (the separators stay)
+		lines := bytes.SplitAfter(data, []byte("\n"))
+		li := t.Choose(len(lines))
+		if t.Prob(1, 2) {
+			li = 0
+		}
+		fields := bytes.Split(lines[li], []byte(","))
+		if len(fields) > 1 {
+			fi := t.Choose(len(fields))
+			if t.Prob(1, 2) {
+				fi = 0
+			}
+			keepNL := bytes.HasSuffix(fields[fi], []byte("\n"))
+			fields[fi] = nil
+			if keepNL {
+				fields[fi] = []byte("\n")
+			}
+			lines[li] = bytes.Join(fields, []byte(","))
+			data = bytes.Join(lines, nil)
+			r.stats["fault.emptied-field"]++
+		}
+	}
 	m := t.Choose(4)
 	for k := 0; k < m && len(data) > 0; k++ {
 		switch t.Choose(5) {
